@@ -445,6 +445,7 @@ func (r *run) sectionAtomics() error {
 				rs := roundSeed(r.seed, sectionAtomics, "", s.name, round)
 				n := 2 + int(uint64(rs)%uint64(maxG-1))
 				s.f(round, rs, n)
+				beat()
 				r.out.AtomicsRounds++
 			}
 		}
